@@ -14,7 +14,7 @@ KEYWORDS = ["as", "break", "const", "continue", "crate", "else", "enum", "extern
             "mut", "pub", "ref", "return", "self", "Self", "static", "struct", "super", "trait", "true", "type", "unsafe", "use", "where", "while", "async", "await", "dyn",
             "abstract", "become", "box", "do", "final", "macro", "override", "priv", "typeof", "unsized", "virtual", "yield", "try", "gen", "macro_rules", "union", "raw", "safe"]
 PAYLOADS = [
-    MARK + '"; fn injected() {} //', MARK + "\\", MARK + '\\"', MARK + "{}{", MARK + "\nfn injected() {}\n", MARK + "\r\nx", MARK + "*/ fn injected() {} /*",
+    MARK + '"; fn injected() {} //', MARK + "\\", MARK + '\\"', MARK + "{}{", MARK + "\nfn injected() {}\n", MARK + "\r\nx", MARK + "\rfn injected() {}", MARK + "*/ fn injected() {} /*",
     MARK + "é日本", MARK + "'a", MARK + "\\u{41}", MARK + "#\"#", MARK + "\\n", "\t" + MARK + "\t", MARK + "]]>", MARK + "${x}",
 ]
 NAME_PAYLOADS = [MARK + "-9.x", "9" + MARK, MARK + " with space", "_" + MARK, MARK + "é", "-" + MARK + "-", MARK + '"q', MARK + "/*x*/", MARK + ";"]
@@ -38,7 +38,7 @@ WSDL = """<wsdl:definitions xmlns:wsdl="http://schemas.xmlsoap.org/wsdl/" xmlns:
     <xs:element name={gename}><xs:complexType><xs:sequence><xs:element name="v" type="xs:string"/></xs:sequence></xs:complexType></xs:element>
     <xs:element name="Reply"><xs:complexType><xs:sequence><xs:element name="v" type="xs:string"/></xs:sequence></xs:complexType></xs:element>
   </xs:schema></wsdl:types>
-  <wsdl:message name={msgname}><wsdl:part name={partname} element={geref}/></wsdl:message>
+  <wsdl:message name={msgname}><wsdl:part name={partname} element={geref}/>{bodypart}</wsdl:message>
   <wsdl:message name="Out"><wsdl:part name="r" element="tns:Reply"/></wsdl:message>
   <wsdl:portType name="PT"><wsdl:operation name={opname}><wsdl:input message={msgref}/><wsdl:output message="tns:Out"/></wsdl:operation></wsdl:portType>
   <wsdl:binding name="B" type="tns:PT"><wsdl:operation name={opname}><soap:operation soapAction={action}/>
@@ -46,7 +46,9 @@ WSDL = """<wsdl:definitions xmlns:wsdl="http://schemas.xmlsoap.org/wsdl/" xmlns:
   <wsdl:service name={svcname}><wsdl:port name="P" binding="tns:B"><soap:address location={address}/></wsdl:port></wsdl:service>
 </wsdl:definitions>
 """
-WSDL2 = WSDL.replace("<soap:header message={msgref} part={partname} use=\"literal\"/>", "")
+# WSDL: the part under test is bound as a header, a second part is the body; WSDL2: the part under test is the body
+WSDL2 = WSDL.replace("<soap:header message={msgref} part={partname} use=\"literal\"/>", "").replace("{bodypart}", "")
+WSDL = WSDL.replace("{bodypart}", '<wsdl:part name="zvbody" element="tns:Reply"/>')
 
 DEFAULTS = {"uri": "urn:zv:c14", "stname": "Code", "doc": "plain", "enum": "A", "facet": "9", "nfacet": "1", "ctname": "Thing", "elname": "name", "atname": "id", "gename": "Ask",
             "msgname": "In", "partname": "p", "opname": "ask", "action": "http://example.com/act", "svcname": "Svc", "address": "http://example.com/svc"}
@@ -59,7 +61,8 @@ URL_POS = {"action", "address"}
 def render(template, vals):
     d = dict(DEFAULTS)
     d.update(vals)
-    q = {k: (escape(v) if k == "doc" else quoteattr(v)) for k, v in d.items()}
+    # a carriage return survives XML line-end normalisation only as a character reference
+    q = {k: (escape(v).replace("\r", "&#13;") if k == "doc" else quoteattr(v)) for k, v in d.items()}
     q["geref"] = quoteattr("tns:" + d["gename"])
     q["msgref"] = quoteattr("tns:" + d["msgname"])
     return template.format(**q)
